@@ -801,3 +801,24 @@ package gomavlib
 //@   requires e != nil
 //@   ensures  [opens-the-configured-device] logLen() == 1 && logCallee(0, "call:func-value") && logArgInt(0, 1) == int64(e.conf.Baud)
 //@   modifies ghost:log
+
+// ---------------------------------------------------------------- broadcast endpoint
+//@ func (*endpointUDPBroadcast).initialize
+//@   ghostlog net.SplitHostPort, net.ParseIP, (net.IP).To4, gomavlib.ipByBroadcastIP, fmt.Sprintf, net.ListenPacket, strconv.Atoi
+//@   requires e != nil
+//@   ensures  [malformed-broadcast-address-refused] logCallee(0, "net.SplitHostPort") && (logRetErr(0) != nil ==> err != nil && logLen() == 1)
+//@   ensures  [ready-after-success] err == nil ==> e.pc != nil && e.broadcastAddr != nil && logCount("net.ListenPacket") == 1
+//@   ensures  [listen-failure-is-returned] logCount("net.ListenPacket") == 1 && logRetErr(logFind("net.ListenPacket", "", 0)) != nil ==> err != nil
+//@   ensures  [ipv4-form-of-the-broadcast-address] err == nil ==> logCount("net.ParseIP") == 1 && logCount("(net.IP).To4") == 1
+//@   ensures  [local-address-derived-when-none-is-given] err == nil && len(old(e.conf.LocalAddress)) == 0 ==>
+//@              logCount("gomavlib.ipByBroadcastIP") == 1 && logCount("net.SplitHostPort") == 1
+//@   ensures  [given-local-address-is-validated] err == nil && len(old(e.conf.LocalAddress)) != 0 ==>
+//@              logCount("net.SplitHostPort") == 2 && logCount("gomavlib.ipByBroadcastIP") == 0 && e.conf.LocalAddress == old(e.conf.LocalAddress)
+//@   ensures  [node-kept] e.node == old(e.node) && e.conf.BroadcastAddress == old(e.conf.BroadcastAddress)
+//@   modifies *e, ghost:log
+
+//@ func (*endpointUDPBroadcast).close
+//@   ghostlog net.PacketConn.Close
+//@   requires e != nil && e.pc != nil
+//@   ensures  logLen() == 1 && logCallee(0, "net.PacketConn.Close")
+//@   modifies ghost:log
